@@ -200,6 +200,7 @@ class Reject:
     clause: str
     event: Dict[str, Any]
     trace_events: List[Dict[str, Any]]
+    module: str = ''
 
 
 _RE_REJECT = re.compile(r'<<"REJECT", (.+), (\d+), "(.*)">>$')
@@ -299,7 +300,7 @@ def validate_traces(chk: Check, module: str, events: List[Dict[str, Any]],
         for tid_s, ln, clause in found:
             e = evs[ln - 1]
             tr = [x for x in _trace_of(evs, ln - 1)]
-            rejects.append(Reject(e['tid'], len(tr), clause, e, tr))
+            rejects.append(Reject(e['tid'], len(tr), clause, e, tr, module))
         ntr += len({e['tid'] for e in evs})
     chk.traces += ntr
     return rejects
@@ -323,8 +324,9 @@ def report_rejects(chk: Check, rejects: List[Reject], what: str,
         chk.violation(key,
                       f'{what}: trace {r.tid} rejected at line {r.line}, '
                       f'clause "{r.clause}"; event {json.dumps(r.event)[:500]}',
-                      {'kind': 'rejected-trace', 'what': what,
-                       'clause': r.clause, 'events': r.trace_events[-400:]})
+                      {'kind': 'rejected-trace', 'what': what, 'module': r.module,
+                       'clause': r.clause, 'events': r.trace_events[-400:],
+                       'events_complete': len(r.trace_events) <= 400})
 
 
 PMAP_TIMEOUT = int(os.environ.get('VERIF_PMAP_TIMEOUT', '5400'))
